@@ -680,3 +680,86 @@ Print Assumptions C10_two_series_buffer_outcome.
 Print Assumptions C10_two_series_idx_buffer_outcome.
 Print Assumptions C10_two_series_slice_outcome.
 Print Assumptions C10_resid_window0_rejected.
+
+(* ==== extension: the carrier hypotheses discharged AT BINARY64 ==============================================
+   Carrier: Coq's primitive `float` (IEEE 754 binary64, instance NumF64 — what the correspondence run evaluates);
+   floor / ceiling: QIdxFloat.NumFloorF64 = the instance of Run/RunC12.v (C12_binary64_floor_instance_is_the_run_instance).
+   Proofs: Proofs/QIdxFloat.v (Flocq's specification of IEEE arithmetic; monotone rounding) and Proofs/CmpOrdFloat.v
+   (order laws of the primitive comparisons).  Axioms: the Reals axioms + the standard library's specification of the
+   primitive float operations (Floats/FloatAxioms.v).                                                            *)
+From Coq Require Floats.
+From Tevec Require Base.F64 Proofs.CmpOrd Proofs.QIdxFloat.
+
+(* the index law QIdxLaw — premise of C10_vquantile_index_in_range / C10_vquantile_never_panics — holds at binary64 *)
+Theorem C10_quantile_index_law_binary64 :
+  QIdxLaw (A := PrimFloat.float) (NA := F64.NumF64) (NF := QIdxFloat.NumFloorF64).
+Proof. exact QIdxFloat.qidx_law_f64. Qed.
+
+Theorem C10_vquantile_index_in_range_binary64 :
+  forall (T : Type) (DT : IsNone T PrimFloat.float) (q : PrimFloat.float) (xs : list T),
+    nleb (A := PrimFloat.float) nzero q && nleb q none = true -> 2 <= count_valid xs ->
+    qsel_index (NF := QIdxFloat.NumFloorF64) q (count_valid xs) < length xs.
+Proof. intros T DT. apply QIdxFloat.vquantile_index_in_range_f64. Qed.
+
+(* vquantile / vmedian never panic at binary64: every series (empty, all null, one element), every q (NaN, infinite and
+   out-of-range ones are the documented Err), every method, every null dictionary over f64 *)
+Theorem C10_vquantile_vmedian_never_panic_binary64 :
+  forall (T : Type) (DT : IsNone T PrimFloat.float) (q : PrimFloat.float) (m : qmethod) (xs : list T),
+    (exists r, vquantile (NF := QIdxFloat.NumFloorF64) q m xs = Ok r /\
+               (r = None <-> nleb (A := PrimFloat.float) nzero q && nleb q none = false)) /\
+    (exists v, vmedian (NF := QIdxFloat.NumFloorF64) xs = Ok v).
+Proof.
+  intros T DT q m xs. split; [apply QIdxFloat.vquantile_never_panics_f64|apply QIdxFloat.vmedian_never_panics_f64].
+Qed.
+
+(* every non-NaN binary64 number equals itself and is not below itself *)
+Theorem C10_self_eq_binary64 :
+  forall x : PrimFloat.float, PrimFloat.is_nan x = false -> PrimFloat.ltb x x = false /\ PrimFloat.eqb x x = true.
+Proof. exact QIdxFloat.f64_self_eq. Qed.
+
+(* hence the premise `self_eq_on` of C10_ts_vargmin_safe / C10_ts_vargmax_safe holds for EVERY f64 series (NaN is the
+   null), and for an Option<f64> series without Some(NaN) (DESIGN 5.4): ts_vargmin / ts_vargmax are safe at binary64 *)
+Theorem C10_ts_vargmin_vargmax_safe_binary64 :
+  forall (body : bool) (w : nat) (mp : option nat) (xs : list PrimFloat.float),
+    kernel_safe w xs (ts_vargmin (DT := F64.IsNoneF64) body w mp xs) /\
+    kernel_safe w xs (ts_vargmax (DT := F64.IsNoneF64) body w mp xs).
+Proof. exact QIdxFloat.ts_varg_safe_f64. Qed.
+
+Theorem C10_ts_vargmin_vargmax_safe_option_binary64 :
+  forall (body : bool) (w : nat) (mp : option nat) (xs : list (option PrimFloat.float)),
+    CmpOrd.valid_not_nan (DT := F64.IsNoneOptF64) xs ->
+    kernel_safe w xs (ts_vargmin (DT := F64.IsNoneOptF64) body w mp xs) /\
+    kernel_safe w xs (ts_vargmax (DT := F64.IsNoneOptF64) body w mp xs).
+Proof. exact QIdxFloat.ts_varg_safe_optf64. Qed.
+
+(* ---- non-vacuity ---- *)
+From Coq Require Import Floats.   (* float literals *)
+Example C10_ex_binary64_guard_and_count :
+  nleb (A := PrimFloat.float) nzero 0.75%float && nleb 0.75%float none = true /\
+  2 <= count_valid (DT := F64.IsNoneF64) [3%float; PrimFloat.nan; 1%float; 2%float] /\
+  qsel_index (NF := QIdxFloat.NumFloorF64) 0.75%float (count_valid (DT := F64.IsNoneF64) [3%float; PrimFloat.nan; 1%float; 2%float]) = 1.
+Proof. split; [vm_compute; reflexivity|]. split; [vm_compute; repeat constructor|vm_compute; reflexivity]. Qed.
+
+Example C10_ex_binary64_quantile_runs :
+  vquantile (NF := QIdxFloat.NumFloorF64) (DT := F64.IsNoneF64) 0.75%float Higher [3%float; PrimFloat.nan; 1%float; 2%float]
+  = Ok (Some 3%float) /\
+  vquantile (NF := QIdxFloat.NumFloorF64) (DT := F64.IsNoneF64) PrimFloat.nan Higher [3%float; PrimFloat.nan] = Ok None.
+Proof. split; vm_compute; reflexivity. Qed.
+
+Example C10_ex_binary64_not_nan : PrimFloat.is_nan 1%float = false /\ PrimFloat.is_nan PrimFloat.infinity = false.
+Proof. split; vm_compute; reflexivity. Qed.
+
+Example C10_ex_binary64_valid_not_nan :
+  CmpOrd.valid_not_nan (DT := F64.IsNoneOptF64) [Some 1%float; None; Some 2%float] /\
+  ts_vargmin (DT := F64.IsNoneOptF64) true 2 (Some 1) [Some 1%float; None; Some 2%float] = Done [Some 1; Some 1; Some 2].
+Proof.
+  split; [|vm_compute; reflexivity].
+  intros v [<-|[<-|[<-|[]]]] H; try discriminate H; vm_compute; reflexivity.
+Qed.
+
+Print Assumptions C10_quantile_index_law_binary64.
+Print Assumptions C10_vquantile_index_in_range_binary64.
+Print Assumptions C10_vquantile_vmedian_never_panic_binary64.
+Print Assumptions C10_self_eq_binary64.
+Print Assumptions C10_ts_vargmin_vargmax_safe_binary64.
+Print Assumptions C10_ts_vargmin_vargmax_safe_option_binary64.
